@@ -456,6 +456,31 @@ def c08(run):
                        distinct_nontrivial=st.get("valid", 0))
 
 
+def c11(run):
+    binary = vlib.build()
+    quick = run.tier == "quick"
+    cfg = gen_cfg(run.tier, run.seed, 2 if quick else 1, ["Partition", "IdBijection", "EmitShard"])
+    scs = vlib.generate(run, "Shards", cfg, "shard", fam="C11", cap=(400 if quick else 4000), timeout=1500)
+    log("Shards.tla: %s (n, N, query, window) states model-checked, %d scenarios" % (run.cov["gen"][-1].get("enumerated"), len(scs)))
+    scs += all_scenarios(run, 60, 1500)
+    scs += vlib.gen_random(run, binary, "compose", 200 if quick else 5000, "C11")
+    chunks = max(1, min(vlib.NCPU // 2, len(scs) // 60))
+    # in-process GOMAXPROCS changes: children run sequentially inside, several children in parallel
+    traces = vlib.replay(run, binary, "config", scs, "cf", chunks=chunks, j=max(1, vlib.NCPU // 4))
+    st = session_validate(run, traces, lambda clause, fam: ["C11"] if clause == "Agree" else (["C13"] if clause == "ProcessDead" else []))
+    if st.get("obs", 0) == 0:
+        raise Infra("vacuous run")
+    return vlib.finish(run, "model_checking",
+                       rule=("Shards.tla: for all n <= 40 series and N <= 8 shards the shard slices partition the series and the re-based IDs are "
+                             "an order-preserving bijection (TLC, exhaustive). Scenarios with 0..40 series (every remainder of n mod shards) over a "
+                             "24-query basket covering every operator kind, plus general and random scenarios, are executed under GOMAXPROCS "
+                             "1,2,3,4,5,6,8,12,16, seeded permutations of the storage's series order, decoy series, seeded yields/sleeps in storage "
+                             "callbacks and at the engine's scheduling points (hook H2), and repetitions; SessionTrace.tla (result independent of "
+                             "all of these) is validated by TLC. distinct_nontrivial = executions compared with the first of their scenario."),
+                       assumptions=["scheduling perturbation is seeded yields, not exhaustive", "comparator classes (1e-9) absorb summation order"],
+                       distinct_nontrivial=st.get("obs", 0) - st.get("keys", 0))
+
+
 def c07(run):
     binary = vlib.build()
     mc_volcano(run)
@@ -479,4 +504,4 @@ def c07(run):
                        distinct_nontrivial=st.get("obs", 0) - st.get("keys", 0))
 
 
-RECIPES = {"C01": c01, "C07": c07, "C08": c08, "C09": c09, "C10": c10, "C16": c16, "C18": c18, "C19": c19, "C02": c02, "C03": c03, "C04": c04, "C05": c05, "C06": c06}
+RECIPES = {"C01": c01, "C07": c07, "C08": c08, "C09": c09, "C10": c10, "C11": c11, "C16": c16, "C18": c18, "C19": c19, "C02": c02, "C03": c03, "C04": c04, "C05": c05, "C06": c06}
